@@ -45,8 +45,11 @@ SITE_FIELD = {
 MUTATION_DRILLS = [
     {"mutation": "WorkspaceUpdate::Run: var/last_build_time written (own scope, saved at once) at the START instead of after the schemas",
      "ran": "VERIF_REPO=<worktree> bin/check C13 quick",
-     "fired": "see the drill note in DESIGN.md §9; translator: bf_stamp_last = false -> C13_stamp_written_last fails; start-up sweeps "
-              "(small-startup, bigyaml-startup, small-sys-startup): startup:stale-after-redeploy:* with startup_nothing_to_do > 0"},
+     "fired": "exit 1 with failing kill points: translator 'SetInt(var/last_build_time) precedes the schema loop' -> "
+              "C13_stamp_written_last fails; start-up sweeps: startup:stale-after-redeploy:{table.bin,prism.bin,reverse.bin,"
+              "schema.yaml,yaml} and startup:leftover-after-redeploy (RimeStartMaintenance(False) answered 'nothing to do' at "
+              "65/70 small-startup, 28/30 bigyaml-startup, 39/40 edit-startup, 39/41 small-sys-startup kill points); the "
+              "full-deployment sweeps stay clean, as expected"},
     {"mutation": "DictCompiler::Compile: a missing / unloadable / mismatching reverse db no longer sets rebuild_table",
      "ran": "VERIF_REPO=<worktree> bin/check C13 quick",
      "fired": "exit 1 with failing kill points: reverse-window-not-rebuilt and stale-after-redeploy:reverse.bin at "
